@@ -11,7 +11,7 @@ from dosa.selftest.gtwins import rewrite
 
 def main():
     a = sys.argv[1:]
-    mode = a[0] if a and a[0] in ('unparse', 'rename', 'flip', 'hoist', 'cmpswap', 'elsify', 'opaque', 'swapadj', 'withmerge', 'loopify', 'walrus') else 'unparse'
+    mode = a[0] if a and a[0] in ('unparse', 'rename', 'flip', 'hoist', 'cmpswap', 'elsify', 'opaque', 'swapadj', 'withmerge', 'loopify', 'walrus', 'logging') else 'unparse'
     props = [x for x in a if x.startswith('C')] or [f'C{i:02d}' for i in range(1, 19)]
     d = tp.scratch_copy()
     try:
